@@ -255,6 +255,26 @@ def handle (d : DState) (line : String) : DState × String :=
         let a := accept m d.X thr new old nom
         (d, s!"{a} stat={showOptRat (stat c new)} slack={showRat (slack d.X tol old.n)}")
       | _, _, _, _, _ => bad
+    | "MON" =>
+      -- MON proto=rename|truncate samples=3,5 sched=TTFFT  -> terminal states of the completed readers
+      match kv args "proto", (kv args "samples").bind (parseNats ","), kv args "sched" with
+      | some proto, some samples, some sched =>
+        let p : BB.Mon.Proto := if proto == "truncate" then .truncate else .rename
+        let sc := sched.toList.filterMap (fun c => if c == 'T' then some true else if c == 'F' then some false else none)
+        let out := BB.Mon.run p samples sc
+        let showR : BB.Mon.RState → String
+          | .done none => "none"
+          | .done (some v) => toString v
+          | .error => "error"
+          | .wrong => "wrong"
+          | _ => "?"
+        let fin := match BB.Mon.finalValue (BB.Mon.runFS p samples sc) with
+          | none => "absent"
+          | some (.full v) => toString v
+          | some .empty => "empty"
+          | some .part => "part"
+        (d, s!"{",".intercalate (out.map showR)} final={fin}")
+      | _, _, _ => bad
     | "MINSAFE" =>
       match (kv args "n").bind String.toNat? with
       | some n => (d, match minSafe? n with | some w => w.name | none => "err:ValueError")
